@@ -315,9 +315,26 @@ pub fn history(p: Profile, max_ops: usize) -> BoxedStrategy<History> {
     (cfg(p), 1..=umax, 1..=cmax, proptest::bool::weighted(0.15))
         .prop_flat_map(move |(cfg, users, chans, txindex)| {
             // every history starts by registering user 0, so that few cases are wasted on unregistered users
-            proptest::collection::vec(op(p, users, chans), 1..max_ops).prop_map(move |mut ops| {
-                ops.insert(0, Op::Register { u: 0 });
-                History { cfg, users, chans, txindex, ops }
+            // scripted openings, so that most histories reach the interesting states:
+            //   0: just the registration; 1: + an appointment of user 0 on channel 0;
+            //   2: + its dispute mined and processed (a responded appointment to start from)
+            let opening = match p {
+                Profile::Chain => prop_oneof![1 => Just(0u8), 2 => Just(1u8), 7 => Just(2u8)].boxed(),
+                Profile::Expiry | Profile::Auth => prop_oneof![3 => Just(0u8), 2 => Just(1u8)].boxed(),
+                _ => prop_oneof![3 => Just(0u8), 4 => Just(1u8), 2 => Just(2u8)].boxed(),
+            };
+            (proptest::collection::vec(op(p, users, chans), 1..max_ops), opening, blob(p)).prop_map(move |(mut ops, opening, first_blob)| {
+                let mut pre = vec![Op::Register { u: 0 }];
+                if opening >= 1 {
+                    let b = if opening == 2 { BlobKind::Valid { len: 0, var: 0 } } else { first_blob };
+                    pre.push(Op::Add { u: 0, chan: 0, dvar: 0, blob: b, delay: 42, sig: SigKind::Good });
+                }
+                if opening == 2 {
+                    pre.push(Op::Mine { take: Take::All, extra: vec![TxRef::Dispute(0, 0)] });
+                    pre.push(Op::Poll);
+                }
+                pre.extend(ops.drain(..));
+                History { cfg, users, chans, txindex, ops: pre }
             })
         })
         .boxed()
